@@ -142,14 +142,23 @@ def build_case(rng, tier):
     lay = st.gen_layout(rng, rich=True)
     rich = lay['delimiter'] != 'regex'
     rows = st.gen_rows(rng, rng.randint(1, 8), first_id=1, allow_rich=rich)
-    if rich and lay['mode'] == 1 and lay['eol'] == '\n' and rng.random() < 0.15:
+    if rich and lay['mode'] == 1 and lay['eol'] == '\n' and rng.random() < 0.25:
+        # a quoted cell spanning several physical lines, some of them empty or blank
         r = rng.choice(rows)
-        r['desc'] = r['desc'].replace(' r%d' % r['id'], '\nline2 r%d' % r['id'])
+        r['desc'] = r['desc'].replace(' r%d' % r['id'], rng.choice(['\nline2 r%d', '\n\nline3 r%d', '\n  \nline3 r%d', '\n,\nline3 r%d',
+                                                                     '\n"q"\nline3 r%d']) % r['id'])
+    if rich and lay['mode'] == 2 and lay['eol'] == '\n' and rng.random() < 0.15:
+        r = rng.choice(rows)
+        k = lay['extras'][-1]
+        r.setdefault('caps_override', {})[k] = 'two\n\nlines'
     if lay['delimiter'] == 'regex':
         for r in rows:
             r['desc'] = ' '.join(r['desc'].split())
             r['loc'] = ''
     st.fill_caps(rng, lay, rows)
+    for r in rows:
+        if r.get('caps_override') and len(lay['extras']) > 1:
+            r['caps'].update(r['caps_override'])
     name = rng.choice(['Card', 'Bank', 'My Visa'])
     settings = st.source_settings(lay, name, 'data/s.csv')
     expected = [st.expected_txn(lay, r, name) for r in rows]
